@@ -155,7 +155,7 @@ partial def reachOk (ss : Schemas) (fuel : Nat) (seen : List String) (todo : Lis
       | some s =>
         match pyDeclRender pyCfg ss s with
         | .ok m =>
-          if !pyDeclCheck ss m then (some ("imported:" ++ p ++ ":" ++ (if !m.imports.all (importOk ss m.pkg) then "import" else if !importsCover m then "cover" else firstBadDecl ss m.decls)), false)
+          if !pyDeclCheck ss m then (some ("imported:" ++ p ++ ":" ++ (if !m.imports.all (importOk ss) then "import" else if !importsCover m then "cover" else firstBadDecl ss m.decls)), false)
           else reachOk ss fuel (p :: seen) (siblings m ++ rest)
         | .panic site => (some ("imported:" ++ p ++ ":crash:" ++ site), false)
         | .err e => (some ("imported:" ++ p ++ ":" ++ e), false)
@@ -185,7 +185,7 @@ def pydeclReply (ss : Schemas) (pkg : String) : String :=
     | .ok m =>
       let text := escLine (renderModule m)
       let lint := if reaches ss pkg [] (siblings m) then "lint:import-cycle" else if !lintOk m then "lint:dup-names" else "lint:ok"
-      if !m.imports.all (importOk ss m.pkg) then "illformed import " ++ hyp ++ " " ++ lint ++ " " ++ text
+      if !m.imports.all (importOk ss) then "illformed import " ++ hyp ++ " " ++ lint ++ " " ++ text
       else if !importsCover m then "illformed imports-do-not-cover " ++ hyp ++ " " ++ lint ++ " " ++ text
       else if !declsOk ss m.decls then "illformed " ++ noSp (firstBadDecl ss m.decls) ++ " " ++ hyp ++ " " ++ lint ++ " " ++ text
       else match (reachOk ss ss.length [pkg] (siblings m)).1 with
